@@ -759,6 +759,40 @@ def cancel_stop_complete(ctx: Ctx):
                      + ('cancelled futures are started by the next top-up' if mname == 'cancel' else 'stopped entries stay counted as running'))
 
 
+BLOCKING_CALLS = {'join', 'wait', 'sleep', 'communicate', 'acquire', 'result'}
+
+
+@rule('C14.STOP-DOES-NOT-WAIT', ['C14', 'C11'])
+def stop_does_not_wait(ctx: Ctx):
+    """cancel() and stop() only signal and forget: neither the executor's nor the runners' cancel / stop joins, waits for or
+    sleeps on anything.  The second Ctrl-C must end run_tasks at once, whatever the task processes do with SIGTERM."""
+    ex = executor(ctx)
+    fns = []
+    for name in ('cancel', 'stop'):
+        m = ctx.P.find_method(ex.cls, name)
+        if m is not None:
+            fns.append(m)
+        for f in roles.impls(ctx, roles.RUNNER, name):
+            fns.append(f)
+    seen = set()
+    n = 0
+    for f0 in fns:
+        for f in ctx.P.closure([f0], include_nested=True):
+            if f.qualname in seen or not f.module.name.startswith(f'{PKG}.runners'):
+                continue
+            seen.add(f.qualname)
+            n += 1
+            bad = [c for c in calls_in(f.node) if (isinstance(c.func, ast.Attribute) and c.func.attr in BLOCKING_CALLS
+                                                   and not (c.func.attr == 'result' and False))
+                   or (dotted(c.func) or '') in ('time.sleep', 'sleep')]
+            bad = [c for c in bad if not (isinstance(c.func, ast.Attribute) and c.func.attr == 'result')]
+            yield ctx.ob('C14.STOP-DOES-NOT-WAIT', not bad, f, bad[0] if bad else f.node, f'{f.short} does not block',
+                         '' if not bad else f'`{src(bad[0])[:60]}` makes cancel/stop wait: after the second Ctrl-C run_tasks must return at once, not after '
+                         'every worker has honoured (or ignored) SIGTERM')
+    if n < 2:
+        raise AnalysisError('cancel/stop implementations not found')
+
+
 def queue_consumer(ctx: Ctx):
     """(consumer function, thread-creating host function, Thread(...) call): the executor function (method or
     nested closure) that takes items off the result queue, and the function that runs it as a Thread target."""
